@@ -62,6 +62,20 @@ def run_http(ck):
                   "%d scripts; first: %s" % (len(res["broken"]), res["broken"][0]["err"] if res["broken"] else ""))
     ck.obligation("correspondence: model blocks = observed blocks (as row sets) on %d HTTP scripts" % len(res["good"]), not res["mism"],
                   "mismatching case ids: %s" % res["mism"][:10])
+    torn = [c for c in res["broken"] if "not a table" in (c.get("err") or "")]
+    ck.obligation("every request the real parsers emitted for the generated bodies is the table of its rows (parser_requests_are_tables on the implementation)", not torn,
+                  "%d scripts; first: %s" % (len(torn), torn[0]["err"] if torn else ""))
+    if torn:
+        worst = min(torn, key=lambda c: (len(c.get("reqs") or []), len(c.get("ops") or [])))
+        for r in worst.get("reqs") or []:
+            try:
+                r["body_text"] = bytes.fromhex(r["body"]).decode("utf8", "replace")[:2000]
+            except ValueError:
+                pass
+        ck.violation({"property": "C02", "kind": "a parser emitted a request whose columns are not the table of its rows (the next INSERT block of that service is not rectangular)",
+                      "explanation": "the dry run of the route's exported parser on the body of the script produced a request struct whose slice fields differ in length or do not line up row by row "
+                                     "(harness: reqRowKeys); model/IngestBridge.v proves this cannot happen for the append programs that pass bridge_ok",
+                      "case": worst, "replay": "harness ingest --level 2 --cases <file with the case object on one line>"})
     bad = sorted(set(res["v2"]) | set(c["id"] for c in res["nontab"]))
     ck.obligation("every block behind the HTTP handlers is a table of distinct submitted rows", not bad, "violating case ids: %s" % bad[:10])
     if bad:
